@@ -6,7 +6,7 @@ import itertools
 
 import numpy as np
 
-from .. import gen_core, gen_ioapi, harness, refsel, snapshot
+from .. import gen_core, gen_ioapi, harness, readerfiles, refsel, snapshot
 from ..cli import digest
 
 PROP = 'C02'
@@ -20,6 +20,7 @@ RULE = ('random core files (variables with differing dimension subsets, masks,'
         'selector menu on a (2,3,4) file. A case is non-trivial when at least '
         'one variable has a selected dimension and the selection is not the '
         'identity; distinct = distinct (file spec, selectors) digests.')
+RULE += (" Every tenth receiver is the object one of the library's READERS returns for a valid image written by the independent codecs (CAMx memory-mapped and record readers, bpch1, bpch2, arlpackedbit, ffi1001); the call is drawn from the dimensions of the open file and judged by the same oracle on a snapshot of that file.")
 ASSUMPTIONS = [
     'oracle = numpy take/basic slicing applied axis by axis to plain copies',
     'index values are drawn inside [-n, n-1] (in-domain); out-of-range '
@@ -78,6 +79,11 @@ def gen(rng, idx, tier, seed):
         sel = [[dn[0], MENU[a]], [dn[1], MENU[b]], [dn[2], MENU[c]]]
         # lists of unequal length are outside the documented domain
         return {'file': fs, 'sel': sel, 'menu': True}
+    if idx % 10 == 7:
+        # the receiver is what a library reader returns for a valid image;
+        # the selection is drawn from its dimensions once it is open
+        return {'file': {'reader': readerfiles.gen_spec(rng, idx=idx // 10)},
+                'sel_seed': int(rng.integers(1 << 30)), 'idx': idx}
     ioapi = idx % 6 == 5
     if ioapi:
         isp = gen_ioapi.gen_spec(rng, maxn=5)
@@ -90,6 +96,12 @@ def gen(rng, idx, tier, seed):
     else:
         fs = gen_core.gen_filespec(rng, allow_char=False)
         dims = fs['dims']
+    spec = gen_sel(rng, dims, idx, ioapi)
+    spec['file'] = fs
+    return spec
+
+
+def gen_sel(rng, dims, idx, ioapi):
     nd = len(dims)
     nsel = int(rng.integers(1, nd + 1))
     chosen = [dims[i] for i in rng.permutation(nd)[:nsel]]
@@ -126,7 +138,7 @@ def gen(rng, idx, tier, seed):
         sel.append([name, s])
     order = rng.permutation(len(sel))
     sel = [sel[i] for i in order]
-    spec = {'file': fs, 'sel': sel}
+    spec = {'sel': sel}
     # the receiver is a file on disk (saved, opened again)
     spec['disk'] = bool(idx % 5 == 1 and not spec.get('form'))
     lists = [s_ for _, s_ in sel if 'l' in s_]
@@ -160,10 +172,38 @@ def run(spec, res):
 
 
 def run_in(spec, res, d, h):
+    rdr = spec['file'].get('reader')
+    if rdr:
+        f, status = readerfiles.open_reader(rdr, d)
+        res.facet('reader:%s:%s' % (rdr['kind'], status.split(':')[0]))
+        if f is None or snapshot.wellformed(f):
+            # (a malformed reader file is C01's finding)
+            res.note('reader-gave-no-file:' + status)
+            return
+        res.facet('source:reader')
+        from .. import ops
+        used = ops.dims_used(f)
+        dims = [[k, len(dm), bool(dm.isunlimited())]
+                for k, dm in f.dimensions.items()
+                if k in used and len(dm) > 0 and
+                k not in ('VAR', 'DATE-TIME')]
+        if not dims:
+            return
+        spec = dict(spec, **gen_sel(
+            np.random.default_rng([spec['sel_seed'], 77]), dims, spec['idx'],
+            ops.is_ioapi(f)))
+        spec['disk'] = False
+        spec.pop('form', None)
+        return run_file(spec, res, d, h, f, ops.is_ioapi(f))
     ioapi = 'ioapi' in spec['file']
     f = gen_ioapi.build(spec['file']['ioapi']) if ioapi else \
         gen_core.build(spec['file'])
-    if ioapi and spec['file']['ioapi']['seed'] % 3 == 0:
+    return run_file(spec, res, d, h, f, ioapi)
+
+
+def run_file(spec, res, d, h, f, ioapi):
+    rdr = spec['file'].get('reader')
+    if ioapi and not rdr and spec['file']['ioapi']['seed'] % 3 == 0:
         # attributes are carried over as they are: a descriptive long_name
         # (not the padded variable name the IOAPI class writes by default)
         k0 = spec['file']['ioapi']['names'][0]
@@ -252,7 +292,7 @@ def run_in(spec, res, d, h):
             nontrivial = True
         got = snapshot.snap_var(out.variables[name])
         res.hook('oracle.compare')
-        if ioapi and name == 'TFLAG':
+        if ioapi and name in ('TFLAG', 'ETFLAG'):
             # the IOAPI class rebuilds TFLAG's VAR axis from its variable
             # list (C10); what slicing owes is the selected time stamps.  A
             # pointwise selection dissolves the grid and is not judged here.
